@@ -19,8 +19,13 @@ class Dev(BaseIOPort):
     def _open(self, **kwargs):
         self.wire = deque()
         self.calls = []
+        self.fail_after = None      # fault injection: _send raises OSError once this many sends have succeeded
 
     def _send(self, msg):
+        if self.fail_after is not None:
+            if self.fail_after <= 0:
+                raise OSError('device gone')
+            self.fail_after -= 1
         self.calls.append(('send', msg))
 
     def _receive(self, block=True):
